@@ -448,10 +448,6 @@ func c13Oracle(name string, args []cty.Value, zeroStep bool) []string {
 			}
 			o.order(convd)
 		}
-	case "range":
-		if zeroStep {
-			o.add("(z)")
-		}
 	}
 	return o.entries
 }
@@ -967,7 +963,7 @@ func c13Exhaustive(ctx *Ctx) {
 			for s := -4; s <= 4; s++ {
 				run("range", c13Ints(a, b, s), false)
 			}
-			// the step argument being the cty.Zero singleton itself
+			// the step argument being the cty.Zero singleton itself (regression: every zero step is rejected)
 			run("range", []cty.Value{cty.NumberIntVal(int64(a)), cty.NumberIntVal(int64(b)), cty.Zero}, true)
 		}
 	}
